@@ -521,13 +521,23 @@ class Tokenizer:
         if char == Re.BACKSLASH and not self.is_escaped:
             self.is_escaped = True
         elif char == self.quote and not self.is_escaped:
+            try:
+                if self.quote == Quote.BACKTICK:
+                    self.token_str: str = literal_eval(
+                        '"""\n' + self.token_str[1:-1] + '\n"""'
+                    )[1:-1]
+                else:
+                    self.token_str: str = literal_eval(self.token_str)
+            except (SyntaxError, ValueError) as error:
+                raise JMCSyntaxException(
+                    f"Invalid escape sequence in string literal ({error.args[0]})",
+                    None,
+                    self,
+                    display_col_length=False,
+                    suggestion="Use '\\\\' for a literal backslash",
+                ) from error
             if self.quote == Quote.BACKTICK:
-                self.token_str: str = literal_eval(
-                    '"""\n' + self.token_str[1:-1] + '\n"""'
-                )[1:-1]
                 self.__parse_multiline_string()
-            else:
-                self.token_str: str = literal_eval(self.token_str)
             self.append_token()
         elif self.is_escaped:
             self.is_escaped = False
